@@ -1,5 +1,6 @@
 import TexSoupProofs.EditLemmasMain
 import TexSoupProofs.EditLemmasLegacy
+import TexSoupModel.ArgsEdit
 /-!
 # C05 – structural edits are local splices of the serialised document
 
@@ -96,6 +97,26 @@ theorem insert_beyond (es : List Expr) (c : Path) (y : Expr) (i : Nat) (ns : Lis
 
 example : ∃ es c y i, getAtRoot es c = some y ∧ y.body.length ≤ i :=
   ⟨Legacy.twins, [], _, 9, rfl, by decide⟩
+
+/-- `container.insert(i, *ns)` for ANY integer index, Python's convention: the index is
+resolved once like `list.insert` does (`pyInsertIndex`: a negative `i` counts from the end,
+everything is clamped into `0..len`), and the text of all new pieces is spliced in, in order,
+at the insertion point of that resolved index (`l[i:i] = pieces`); nothing is removed. -/
+theorem insert_splice_py (es : List Expr) (c : Path) (y : Expr) (i : Int) (ns : List Expr)
+    (hc : getAtRoot es c = some y) (hsc : y.supportsContents = true) :
+    insertEdit es c i ns = some (.insert c (pyInsertIndex y.body.length i) ns) ∧
+    pyInsertIndex y.body.length i ≤ y.body.length ∧
+    ∃ k, insOffRoot es c (pyInsertIndex y.body.length i) = some k ∧
+      serL (applyEdit es (.insert c (pyInsertIndex y.body.length i) ns)) =
+        (serL es).take k ++ (serL ns ++ (serL es).drop k) := by
+  have hle : pyInsertIndex y.body.length i ≤ y.body.length := by
+    unfold pyInsertIndex pyClampInsert
+    split <;> omega
+  exact ⟨by simp [insertEdit, hc], hle, insert_splice es c y _ ns hc hsc hle⟩
+
+example : pyInsertIndex 2 (-1) = 1 ∧ pyInsertIndex 2 (-99) = 0 ∧ pyInsertIndex 2 99 = 2 ∧
+    serL (applyEdit Legacy.twins (.insert [] (pyInsertIndex 4 (-1)) [.text [112] (-1), .text [113] (-1)]))
+      = [92, 120, 32, 121, 92, 120, 112, 113, 32, 122] := by decide
 
 /-- `container.append(*ns)`: the new text is spliced in after the last element of the
 container's contents (before its closing part). -/
